@@ -183,12 +183,24 @@ def argmax(a, axis=None):
     return _np.argmax(_tofloat(_np.asarray(a)), axis)
 
 
+def _nan_free(a):
+    """(indices, values) of the entries of a that are not float NaN."""
+    a = _seq(a).ravel()
+    keep = [i for i in range(len(a)) if not (isinstance(a[i], builtins.float) and a[i] != a[i])]
+    return keep, [a[i] for i in keep]
+
 def nanargmax(a, axis=None):
-    if _has_sym(a): return argmax(a, axis)
+    if _has_sym(a):
+        keep, vals = _nan_free(a)      # NaN entries (concrete) are ignored, as numpy does
+        if len(keep) < len(_seq(a).ravel()): return keep[argmax(_np.array(vals, dtype=object), axis)]
+        return argmax(a, axis)
     return _np.nanargmax(_tofloat(_np.asarray(a)), axis)
 
 def nanargmin(a, axis=None):
-    if _has_sym(a): return argmin(a, axis)
+    if _has_sym(a):
+        keep, vals = _nan_free(a)
+        if len(keep) < len(_seq(a).ravel()): return keep[argmin(_np.array(vals, dtype=object), axis)]
+        return argmin(a, axis)
     return _np.nanargmin(_tofloat(_np.asarray(a)), axis)
 
 
